@@ -15,6 +15,7 @@ import zlib
 import warnings
 
 warnings.filterwarnings("ignore")
+sys.set_int_max_str_digits(0)
 
 ROOT = os.path.dirname(os.path.dirname(os.path.dirname(os.path.abspath(__file__))))  # /verif
 MAX_ROUNDS = 12
